@@ -172,6 +172,19 @@ Definition truth_of (ops : list op) : truth := fold_left tstep ops tinit.
 Definition present {V} (tbl : list (id * V)) (k : id) : bool :=
   match lookup k tbl with Some _ => true | None => false end.
 
+(* the policies of one tier *)
+Definition tier_ids (t : tier) : list id := t_in t ++ t_out t.
+(* a policy belongs to one tier: the tiers' policy sets are pairwise disjoint *)
+Fixpoint tiers_disjoint (ts : list tier) : bool :=
+  match ts with
+  | [] => true
+  | t :: r => forallb (fun p => negb (mem p (flat_map tier_ids r))) (tier_ids t) && tiers_disjoint r
+  end.
+(* an endpoint lists a policy once: tiers are disjoint and no tier lists a policy twice in its ingress list
+   (the calculation graph also never repeats a policy in an egress list; the Processor tolerates that) *)
+Definition listed_once (e : endpoint) : bool :=
+  forallb (fun t => negb (has_dup (t_in t))) (ep_tiers e) && tiers_disjoint (ep_tiers e).
+
 Definition valid_op (t : truth) (o : op) : bool :=
   match o with
   | OJoin _ uid => negb (Nat.eqb uid 0)                    (* UIDAllocator never hands out 0 *)
@@ -179,7 +192,7 @@ Definition valid_op (t : truth) (o : op) : bool :=
   | OWepUpdate _ e =>
       (* policies/profiles are sent before the endpoints that use them; a policy is listed once *)
       forallb (present (t_pols t)) (ep_policies e) && forallb (present (t_profs t)) (ep_profiles e)
-      && negb (has_dup (ep_pols e)) && negb (has_dup (ep_profiles e))
+      && listed_once e && negb (has_dup (ep_profiles e))
   | OWepRemove w => present (t_eps t) w
   | OPolUpdate _ r | OProfUpdate _ r => forallb (present (t_ips t)) (refs r)      (* IP sets before their users *)
   | OPolRemove p => negb (existsb (fun we => mem p (ep_policies (snd we))) (t_eps t))   (* removed only when unused *)
@@ -323,6 +336,8 @@ Definition agrees (c : case) : bool :=
   let '(st, pk) := run (c_ops c) in
   opt_eqb Nat.eqb pk (c_panic c)
   && Nat.eqb (njoins st) (length (c_chans c))
+  && list_eqb (fun a b => Nat.eqb (fst a) (fst b) && Nat.eqb (snd a) (snd b))
+              (joins_of (done_ops c)) (map (fun ch => (ch_step ch, ch_w ch)) (c_chans c))   (* channels in join order *)
   && forallb (fun jc => chan_agrees (length (c_ops c)) (lookup (fst jc) (channels st)) (snd jc))
              (combine (seq 0 (length (c_chans c))) (c_chans c)).
 
